@@ -287,8 +287,14 @@ impl Prop for C11Prop {
                         if p == q {
                             return true;
                         }
+                        // what the classic assembler makes of the bare word these bytes spell:
+                        // a leading # is dropped, an operator name becomes its opcode
                         let name = String::from_utf8_lossy(q).to_string();
-                        let hit = chialisp::classic::clvm::keyword_to_atom(2).get(&name).map(|op| op == p).unwrap_or(false);
+                        let stripped = name.strip_prefix('#').unwrap_or(&name).to_string();
+                        let hit = match chialisp::classic::clvm::keyword_to_atom(2).get(&stripped) {
+                            Some(op) => op == p,
+                            None => stripped != name && stripped.as_bytes() == &p[..],
+                        };
                         *any |= hit;
                         hit
                     }
@@ -339,9 +345,15 @@ impl Prop for C11Prop {
                     sut::compile_lib(src, true, &[]).ok().map(|c| c.ser())
                 };
                 let _ = d;
-                let (a1, a2, b1) = (at(5000), at(5000), at(777_777));
-                if a1.is_some() && a1 == a2 && b1.is_some() && a1 != b1 {
-                    return Some("evaluator-com-leaks-let-bound-names");
+                let (a1, a2) = (at(5000), at(5000));
+                if a1.is_some() && a1 == a2 {
+                    // (the dependence can be on single digits of the name: several other values)
+                    for n in [777_777usize, 0, 50, 950, 99_990, 999_990, 100, 31, 123_456] {
+                        let b1 = at(n);
+                        if b1.is_some() && a1 != b1 {
+                            return Some("evaluator-com-leaks-let-bound-names");
+                        }
+                    }
                 }
             }
         }
